@@ -119,6 +119,63 @@ CHECKS = {
     "C31": ("Lean 4 one-step and invariant proofs + schedule-replay correspondence",
             "Theorems: a timed post at capacity creates no source (nothing can ever post for it) and returns the error "
             "result; accepted sources are tracked; tracked count never exceeds the capacity.", "§8 C31", NOTE_CONC),
+    "C17": ("Lean 4 proof on top of the C01 refinement: template chart and to_code chart have the same spec + three-way run and ladder correspondence",
+            "Theorems: the ladder printed by to_code answers every signal as the registration table does (stable priority "
+            "order, missing ENTRY/INIT/EXIT filled with HANDLED, callbacks named `handled` inlined); the chart denoted by "
+            "the template handlers and the chart denoted by the executed text differ only in how a state declines "
+            "(SUPER vs UNHANDLED) and therefore have equal UML specs, hence (C01/C03) equal actions and states for every "
+            "event sequence; any hand-written chart with the same reactions likewise. Tie: three real builds run side by "
+            "side; every to_code text parsed and compared with the Lean ladder.", "§8 C17", NOTE_L1),
+    "C18": ("Lean 4 proof that the instrumented host's chart/queue component is the plain queued chart's + run of every host/decorator/live configuration",
+            "Theorems: the queue/chart component of the instrumented host evolves exactly as the un-instrumented queued "
+            "chart (same dispatch = the plain processor), for all ring sizes; outputs (spy, trace, live) never feed back. "
+            "Standing hypothesis: decorator detection agrees with the decorator (generated shape tags). Tie/oracle: each "
+            "generated chart+script on plain/instrumented/queued/active-object hosts x spied/un-spied x live flags.",
+            "§8 C18", NOTE_L1),
+    "C19": ("Lean 4 proofs about the spy-line function of the call trace + line-by-line correspondence",
+            "Theorems: the call lines of a step's spy log are exactly the handler invocations in order; HOOK iff a "
+            "non-inner signal was answered HANDLED; markers follow the handlers' effects; reflection last; the full spy is "
+            "the ring-truncated concatenation of the step logs. Hypothesis: a step makes at most rtcCap (250) calls. Tie: "
+            "rtc spy after every operation, full spy, with real and reduced ring sizes.", "§8 C19", NOTE_L1),
+    "C20": ("Lean 4 proof: a trace record iff the spec's answer is a transition + record-by-record correspondence",
+            "Theorems: next_rtc appends exactly one record (previous state, signal, new state) iff the event caused a "
+            "transition (via dispatch_user_calls = offers), none for handled/ignored; start appends the start record when "
+            "the start path fits the 250-entry per-step ring; the trace is the ring-truncated list of all records. Two "
+            "recorded findings in the excluded region (>250 handler calls in one step) are probed on every run.",
+            "§8 C20", NOTE_L1),
+    "C21": ("Lean 4 proof over operation lists (no clock parameter in the model) + correspondence under scripted clocks",
+            "Theorems: every step hands exactly its step log to the live-spy callback, in order; live trace receives "
+            "exactly the records appended, each once; trace = ring(liveTrace). The model has no time parameter (generated "
+            "tag liveTraceById). Tie: real runs with fine, coarse, constant and backwards clocks.", "§8 C21", NOTE_L1),
+    "C25": ("Lean 4 proofs: sequential registry laws + lock invariant over all schedules; lock-granularity replay and bytecode-granularity search",
+            "Theorems: numbering is injective, positive, stable; name_for_signal inverts it; the inner signals are the "
+            "generated ten; concurrent append under the registry lock keeps the dictionary well formed in every schedule "
+            "and registers every name; witness for the unlocked code. One recorded finding: names that are dict-method "
+            "names cannot be registered through attribute access.", "§8 C25", NOTE_CONC),
+    "C26": ("Lean 4 proof of the round trip over an abstract JSON codec + round-trip runs on the real code",
+            "Theorem: with dec(enc j) = some j (CPython json: trusted, exercised by the runs), loads(dumps(e)) has the "
+            "same name, payload and the number the registry assigns (registering a new name).", "§8 C26", NOTE_L1),
+    "C27": ("Lean 4 invariant proofs over all schedules of the get/set protocol + replay and bytecode-granularity search",
+            "Theorems (statements correctly classified by the library): no release of an un-owned lock, lock free when all "
+            "threads finish, an augmented assignment's write uses the value it read (no lost update, serialisable); "
+            "witness for the earlier shared flag. Statement forms the classifier gets wrong are C28's findings.",
+            "§8 C27", NOTE_CONC),
+    "C28": ("Lean 4 proof by structural induction over a statement grammar (partial) + executed-statement correspondence",
+            "Theorems: the pinned regex is equivalent to 'a class character directly before =', the leak formula, and "
+            "C28_partial: statements of the safe sub-grammar leave the lock free; witness theorems for the four recorded "
+            "finding classes (<= / >= comparisons, augmented assignment to another target, attribute read again in its own "
+            "augmented assignment, op= in a trailing comment). The property does not hold for the whole grammar: those are "
+            "known findings, printed on every run.", "§8 C28", NOTE_L1),
+    "C29": ("Lean 4 proof of a last-write-per-instance store + operation-sequence correspondence",
+            "Theorems: reads return the last value written to that instance, 0 before; writes to one instance do not "
+            "change another's reads; witness for the earlier shared storage.", "§8 C29", NOTE_L1),
+    "C30": ("Lean 4 invariant proof over all schedules and any number of threads + replay and bytecode-granularity search",
+            "Theorems: at most one object is ever constructed, every returned reference is that object, quiescent states "
+            "have all threads returned; witness for the unlocked code.", "§8 C30", NOTE_CONC),
+    "C32": ("Lean 4 proofs about a character-level model of splitlines/strip/the timestamp pattern + string correspondence",
+            "Theorems: the matcher removes the timestamp of every trace line (any padding), multi-line traces strip to "
+            "their bodies whatever timestamps / blank lines / surrounding whitespace, a single line likewise (generated "
+            "tag singleLineStripped), pattern pinned.", "§8 C32", NOTE_L1),
     "C22": ("Lean 4 proof by induction on the active path + call-trace correspondence + purity replay",
             "Theorems for every current state and argument: the faithful model of is_in returns true iff the "
             "argument is a suffix of (= is or encloses) the current path; child_state returns the spec's child, "
